@@ -156,11 +156,12 @@ type bounds struct {
 	curveE   int
 	negBessM int
 	negBessE int
+	th       bool // thorough tier (selects the L5 order sets of orders.go)
 }
 
 func tierBounds(thorough bool) bounds {
 	if thorough {
-		return bounds{m1: 8, e1: 40, m2: 4, e2: 12, half: 60, mp: 6, ep: 40, nmax: 60, ml: 3, el: 10, bern: 300, lxstep: 8, curveM: 3, curveE: 8, negBessM: 4, negBessE: 12}
+		return bounds{m1: 8, e1: 40, m2: 4, e2: 12, half: 60, mp: 6, ep: 40, nmax: 60, ml: 3, el: 10, bern: 300, lxstep: 8, curveM: 3, curveE: 8, negBessM: 4, negBessE: 12, th: true}
 	}
 	return bounds{m1: 6, e1: 40, m2: 3, e2: 10, half: 20, mp: 4, ep: 40, nmax: 24, ml: 2, el: 10, bern: 60, lxstep: 64, curveM: 2, curveE: 6, negBessM: 3, negBessE: 10}
 }
@@ -231,6 +232,7 @@ func igamPairs(b bounds) [][2]float64 {
 	// two-argument selection boundaries: for each a on a coarse lattice, x on the curve
 	ca := uniq(append(l1(b.curveM, b.curveE), halves(min(b.half, 30))...))
 	ca = append(ca, 25, 100, 250, 400, 1000, 3000)
+	ca = append(ca, igamOrderAs(b.th)...) // L5: both sides of every threshold in a
 	for _, a := range uniq(ca) {
 		curves := []float64{
 			a / 0.75,                       // x*0.75 < a       (0.5 <= x < 1.1)
@@ -402,7 +404,18 @@ func points(thorough bool) []Pt {
 	for _, p := range powm1Pairs(b) {
 		r = append(r, Pt{"powm1", p[0], p[1]})
 	}
-	return r
+	r = append(r, orderPoints(thorough)...)
+	// points are distinct: drop repetitions (L5 overlaps L1-L3), keeping first occurrences
+	seen := make(map[Pt]bool, len(r))
+	out := r[:0]
+	for _, p := range r {
+		p.A, p.X = p.A+0, p.X+0 // -0 -> +0
+		if !seen[p] {
+			seen[p] = true
+			out = append(out, p)
+		}
+	}
+	return out
 }
 
 // families in table-file order
